@@ -68,7 +68,8 @@ def pipeline_key(tier, seed, tag):
     mine += [os.path.join(vlib.ROOT, "tools", f) for f in ("viewpipe.py", "viewgen.py", "catalogue.py", "schema.py", "vlib.py", "xmlimport.py")]
     if tag.startswith("repo"):
         import glob
-        files += sorted(glob.glob(os.path.join(vlib.REPO, "test", "schemas", "*.xml"))) + sorted(glob.glob(os.path.join(vlib.REPO, "benchmark", "*.xml")))
+        files += sorted(glob.glob(os.path.join(vlib.REPO, "test", "schemas", "*.xml"))) + sorted(glob.glob(os.path.join(vlib.REPO, "benchmark", "*.xml"))) \
+            + sorted(glob.glob(os.path.join(vlib.REPO, "test", "naming_test", "*.xml")))
     return vlib.sha(tag, tier, str(seed), vlib.file_hash(files + mine))
 
 
@@ -271,23 +272,29 @@ def gen_visit_results(tier, seed):
                          k_for=lambda S: 8 if tier == "thorough" else 3)
 
 
-def repo_schemas(tier, seed, nmsg=6):
+def repo_schemas(tier, seed, nmsg=-1, naming=True):
     """the repository's OWN schemas (test/schemas/*.xml, benchmark schema) read by
     tools/xmlimport.py - schemas that were not written for this specification.
     quick: a seeded sample of messages per schema; thorough: every message."""
     import glob
     import xmlimport
     out = []
+    if nmsg == -1:
+        nmsg = 0 if tier == "thorough" else 6     # 0: every message
     paths = sorted(glob.glob(os.path.join(vlib.REPO, "test", "schemas", "*.xml"))) + \
         sorted(glob.glob(os.path.join(vlib.REPO, "benchmark", "*.xml")))
+    # the name-clash schemas of the repository's naming test all use one package
+    # name and are compiled with --schema-name <file name> there: same here
+    if naming:
+        paths += sorted(glob.glob(os.path.join(vlib.REPO, "test", "naming_test", "*.xml")))
     for p in paths:
         try:
-            S = xmlimport.load(p)
+            S = xmlimport.load(p, package=os.path.basename(p)[:-4] if "naming_test" in p else None)
         except Exception:
             continue   # not a schema this transliteration reads (never a verdict)
         if not S.get("package") or not S["messages"]:
             continue
-        if tier != "thorough" and len(S["messages"]) > nmsg:
+        if nmsg and len(S["messages"]) > nmsg:
             rnd = random.Random("%s-repo-%s" % (seed, S["package"]))
             S = xmlimport.restrict(S, set(m["name"] for m in rnd.sample(S["messages"], nmsg)))
         out.append(S)
@@ -312,7 +319,7 @@ def repo_visit_results(tier, seed):
 
 def repo_cursor_results(tier, seed):
     # (every instance x landmark x member x wrapper is a transition: two messages per schema in the quick tier)
-    return run_catalogue("repocursor", repo_schemas(tier, seed, 2), tier, seed, machine="cursor",
+    return run_catalogue("repocursor", repo_schemas(tier, seed, 8 if tier == "thorough" else 2), tier, seed, machine="cursor",
                          configs_for=(lambda i, S, base: base) if tier == "thorough" else _rot(2),
                          k_for=lambda S: 2 if tier == "thorough" else 1)
 
